@@ -165,6 +165,14 @@ impl Pool {
         verif::crashpoint()?;
 
         loop {
+            /* Each schema step and the version bump that records it are committed together, so
+             * that being killed between the two cannot leave a database that can never be opened
+             * again.
+             */
+            let tx = self
+                .conn
+                .unchecked_transaction()
+                .map_err(|e| Error::emit("Starting schema upgrade transaction", &e))?;
             let upgraded_to_version = match self
                 .conn
                 .query_row(
@@ -195,6 +203,8 @@ impl Pool {
                 .map_err(|e| Error::emit("Creating updating schema version", &e))?;
             #[cfg(erbium_verif)]
             verif::crashpoint()?;
+            tx.commit()
+                .map_err(|e| Error::emit("Committing schema upgrade", &e))?;
         }
         Ok(self)
     }
